@@ -447,3 +447,12 @@ CONTRACTS += [
              note='holiday word %s with a relative year word whose swift is symbolic' % word)
     for word, fn, mon, day in (('除夕', 'new_year_eve', 12, 31), ('元旦', 'new_year', 1, 1), ('圣诞节', 'christmas_day', 12, 25))
 ]
+
+# a stand-alone clock time is a value at every time of day, midnight included (C07 / C11)
+CONTRACTS += [
+    Contract('dp.merged.add_single_value.time', BMP + '__add_single_date_time_to_resolution', ['C07', 'C11'],
+             params=dict(h=Int(0, 23), mi=Int(0, 59), s=Int(0, 59), value=Expr('time_str(h, mi, s)'), dtype=Const('time'),
+                         self=MERGED_PARSER, resolutions=Expr('{dtype: value}'), mod=Const(''), result=Expr('{}')),
+             ensures=[('every-time-of-day-is-emitted-unchanged', 'len(result) == 1 and result["value"] == value')],
+             note='00:00:00 is a time, not the invalid-date marker'),
+]
